@@ -354,7 +354,7 @@ func (u *Unit) verifyFunction(known []KnownFinding, prop string) {
 			o := u.oblige("post", r.reach, f, "post", fmt.Sprint(k), en.Src)
 			_ = o
 		}
-		u.checkFrame(ct, r, alloc0)
+		u.checkFrame(ct, r, alloc0, penv)
 		u.retReach = append(u.retReach, r.reach)
 	}
 	// assert@call clauses that never matched a call are failures of the contract
@@ -549,6 +549,8 @@ func discharge(u *Unit, o *Obligation, workDir string, timeout int, known []Know
 		o.Status = "discharged"
 	case "sat":
 		o.Status = "refuted"
+	case "error":
+		o.Status = "error"
 	default:
 		o.Status = "undecided"
 	}
